@@ -157,6 +157,39 @@ def build(cls, cfg, N):
         i = ev.loop_index('_i', max(1, N.L('looplength')))
         f = operand('func', cfg['rank'], (1, 2, 3), fill=1)
         return ev.loop_sum(f * ev.astype(ev.appendaxes(i, f.shape), f.dtype) if cfg['rank'] else f, i), A
+    if cls in ('Multiply', 'Add'):
+        r = cfg['rank']
+        lens = [N.L('func1.shape%d' % i) for i in range(r)]
+        k = N.K('funcs')
+        A['func1'] = numpy.ones(lens).astype(DT[k])
+        A['func2'] = numpy.ones(lens).astype(DT[k])
+        from nutils import types
+        return getattr(ev, cls)(types.frozenmultiset([arg('func1', lens, k), arg('func2', lens, k)])), A
+    if cls == 'Power':
+        r = cfg['rank']
+        lens = [N.L('func.shape%d' % i) for i in range(r)]
+        k = N.K('func', (1, 2, 3))
+        f = operand('func', r, (k,), lens=lens, fill=1)
+        A['power'] = numpy.ones(lens).astype(DT[k])
+        p = arg('power', lens, k)
+        if k == 1:
+            p = ev.Maximum(p, ev.zeros(p.shape, int))
+        return ev.Power(f, p), A
+    if cls == 'Sign':
+        return ev.Sign(operand('func', cfg['rank'], tuple(cfg.get('kinds', (1, 2, 3))), fill=1)), A
+    if cls == 'Zeros':
+        return ev.Zeros(tuple(c(N.L('shape%d' % i)) for i in range(cfg['rank'])), DT[cfg['kind']]), A
+    if cls == 'Guard':
+        return ev.Guard(operand('fun', cfg['rank'], fill=1)), A
+    if cls == 'WithDerivative':
+        f = operand('func', cfg['rank'], fill=1)
+        return ev.WithDerivative(f, ev.Argument('v', (), float), ev.zeros_like(f)), A
+    if cls == 'LoopConcatenate' and cfg.get('chunk') == 'varying':
+        i = ev.loop_index('_i', max(1, N.L('looplength')))
+        lead = [N.L('func.shape%d' % k) for k in range(cfg['rank'] - 1)]
+        chunk = ev.Range(i + c(1))  # chunk length i+1 at iteration i
+        f = ev.prependaxes(ev.IntToFloat(chunk), tuple(c(n) for n in lead))
+        return ev.loop_concatenate(f, i), A
     if cls == 'LoopConcatenate':
         i = ev.loop_index('_i', max(1, N.L('looplength')))
         f = operand('func', cfg['rank'], fill=1)
